@@ -29,6 +29,7 @@ func checkC06(c *Ctx) {
 	ruleSpanScan(c)
 	ruleWSSpecRecognisers(c)
 	ruleStartNonBlank(c)
+	ruleFenceIndent(c)
 	ruleHTMLBlockTable(c)
 	rulePrefilter(c)
 	ruleWindowSearch(c)
